@@ -10,7 +10,7 @@ TRANSLATOR = os.path.join(vlib.ROOT, "translators", "tr_grammar.py")
 # Coq files of the shared development, in dependency order (all compiled directly with coqc)
 ORDER = [
     "Parse/Tokens.v", "Parse/Gen_Prec.v", "Parse/Gen_Names.v", "Parse/Lexer.v", "Parse/ParseModel.v",
-    "Parse/PrintModel.v", "Parse/LexProofs.v", "Parse/ParseSpec.v", "Parse/ParseProofs.v",
+    "Parse/PrintModel.v", "Parse/LexProofs.v", "Parse/ParseSpec.v", "Parse/ParseProofs.v", "Parse/ParseSound.v",
     "Parse/NumericProofs.v", "Parse/StateProofs.v", "Parse/PrintProofs.v",
 ]
 
@@ -44,9 +44,8 @@ def build_coq(ctx, upto=None):
                 ok = False
                 continue
             if stale:
-                with vlib.Lock(os.path.join(vlib.WORK, "coq.lock")):
-                    rc, out = vlib.sh(["timeout", "1500", "coqc", "-Q", ".", "SE", "-w", "-notation-overridden", f],
-                                      cwd=vlib.COQ, timeout=1530)
+                rc, out = vlib.sh(["timeout", "1500", "coqc", "-Q", ".", "SE", "-w", "-notation-overridden", f],
+                                  cwd=vlib.COQ, timeout=1530)
                 if rc != 0:
                     ok = False
                     if os.path.exists(vo):
